@@ -12,8 +12,62 @@ import z3
 from .ctx import has_quant
 
 
+_UMUL = z3.Function("uf_mul", z3.RealSort(), z3.RealSort(), z3.RealSort())
+_UDIV = z3.Function("uf_div", z3.RealSort(), z3.RealSort(), z3.RealSort())
+_UMULI = z3.Function("uf_muli", z3.IntSort(), z3.IntSort(), z3.IntSort())
+
+
+def _is_num(t):
+    return z3.is_int_value(t) or z3.is_rational_value(t)
+
+
+def uf_abstract(f, cache, found):
+    """replace nonlinear * and / by uninterpreted functions (sound weakening: unsat with UFs implies unsat over the reals)"""
+    key = f.get_id()
+    if key in cache:
+        return cache[key]
+    if z3.is_quantifier(f):
+        body = uf_abstract(f.body(), cache, found)
+        if body.eq(f.body()):
+            r = f
+        else:
+            vs = [z3.Const(f.var_name(i), f.var_sort(i)) for i in range(f.num_vars())]
+            b2 = z3.substitute_vars(body, *reversed(vs))
+            r = z3.ForAll(vs, b2) if f.is_forall() else (z3.Exists(vs, b2) if f.is_exists() else z3.Lambda(vs, b2))
+        cache[key] = r
+        return r
+    if not z3.is_app(f) or f.num_args() == 0:
+        cache[key] = f
+        return f
+    args = [uf_abstract(a, cache, found) for a in f.children()]
+    k = f.decl().kind()
+    r = None
+    if k == z3.Z3_OP_MUL:
+        nn = [a for a in args if not _is_num(a)]
+        if len(nn) >= 2:
+            found.append(1)
+            U = _UMUL if f.sort() == z3.RealSort() else _UMULI
+            acc = nn[0]
+            for a in nn[1:]:
+                acc = U(acc, a)
+            for a in args:
+                if _is_num(a):
+                    acc = a * acc
+            r = acc
+    elif k == z3.Z3_OP_DIV and not _is_num(args[1]):
+        found.append(1)
+        r = _UDIV(args[0], args[1])
+    if r is None:
+        try:
+            r = f.decl()(*args) if any(not a.eq(b) for a, b in zip(args, f.children())) else f
+        except z3.Z3Exception:
+            r = f
+    cache[key] = r
+    return r
+
+
 def serialize(o):
-    """(qf_smt2 | None, full_smt2, trivially_true)"""
+    """(qf_smt2 | None, full_smt2, trivially_true); full_smt2 may be a tuple (uf_abstraction, exact)"""
     g = z3.simplify(o.goal)
     if z3.is_true(g):
         return (None, None, True)
@@ -29,6 +83,15 @@ def serialize(o):
             qfh.append(h)
     sv.add(ng)
     full = sv.to_smt2()
+    cache, found = {}, []
+    try:
+        abst = [uf_abstract(h, cache, found) for h in o.hyps] + [uf_abstract(ng, cache, found)]
+    except Exception:
+        found = []
+    if found:
+        sa = z3.Solver()
+        sa.add(*abst)
+        full = (sa.to_smt2(), full)
     qf = None
     if anyq:
         sq = z3.Solver()
@@ -93,13 +156,17 @@ def solve_one(job):
         return dict(idx=idx, verdict="unsat", backend="simplifier", stage="syntactic", time_s=0.0, model=None, reason="")
     verdict, model, reason, stage = "unknown", None, "", ""
     stages = []
+    if isinstance(full, tuple):
+        stages.append(("uf-abstraction", full[0], {}))
+        full = full[1]
     if qf is not None:
         stages.append(("qf-only", qf, {}))
         stages.append(("ematch", full, {"smt.mbqi": False, "smt.auto_config": False}))
     stages.append(("full", full, {}))
     for stage, smt, opts in stages:
         try:
-            verdict, model, reason = _z3_check(smt, timeout_ms, opts)
+            # the cheap stages get a short budget; only the last one the full budget
+            verdict, model, reason = _z3_check(smt, timeout_ms if stage == "full" else min(timeout_ms, 3000), opts)
         except z3.Z3Exception as ex:
             verdict, model, reason = "unknown", None, f"z3 exception: {ex}"
         if verdict == "unsat":
@@ -109,7 +176,7 @@ def solve_one(job):
         if verdict == "sat" and stage == "qf-only":
             # sat with fewer hypotheses proves nothing; continue
             verdict = "unknown"
-        if verdict == "sat" and stage == "ematch":
+        if verdict == "sat" and stage in ("ematch", "uf-abstraction"):
             verdict = "unknown"
     backend = "z3"
     out = dict(idx=idx, verdict=verdict, backend=backend, stage=stage, time_s=round(time.time() - t, 3), model=model, reason=reason)
